@@ -153,10 +153,15 @@ structure Variant where
   rawActions : Bool
   /-- the solution pool forgets the solutions of the previous summary when a new one is accepted -/
   poolReset : Bool
+  /-- D13 repaired (747c98d, 090fd75): malformed summaries are client errors (a one-column header is
+  rejected; an As-Is row whose cells are not the model's variables as numbers is "not produced from the
+  current scenario"), and `getSolutionDetail`'s search covers row 0 (a label in the first row of a summary
+  without an As-Is row is served instead of a nil dereference) -/
+  guards : Bool
   deriving DecidableEq, Repr
 
-def Variant.current : Variant := ⟨false, false, false⟩
-def Variant.fixed : Variant := ⟨true, true, true⟩
+def Variant.current : Variant := ⟨false, false, false, false⟩
+def Variant.fixed : Variant := ⟨true, true, true, true⟩
 
 /-! ## 3. POST /api/v1/solutions: `loadSummary` -/
 
@@ -255,12 +260,13 @@ def loadSummary (v : Variant) (sc : Scenario) (text : Bytes) : Post :=
   | .panic _ => .rejected .csv          -- unreachable (`load_no_panic`)
   | .ok t =>
     match headerOk t.header with
-    | none => .panic .headerIndex
+    | none => if v.guards then .rejected .invalid else .panic .headerIndex
     | some hok =>
       -- rows 1.. only: `if rowIndex > 0`
       if !(hok && t.cells.tail.all (rowOk t.header)) then .rejected .invalid
       else
         match verifyRows sc t.header t.cells with
+        | some (.panic p) => if v.guards then .rejected .notScenario else .panic p
         | some p => p
         | none => .ok t
 
@@ -304,7 +310,7 @@ def lookup (v : Variant) (label : Bytes) (t : Table) : Lookup :=
   if !routableLabel label then .notFound
   else if !containsLabel label t then .notFound
   else if label == sAsIs then .asIs
-  else findDetail v t label t.cells.tail
+  else findDetail v t label (if v.guards then t.cells else t.cells.tail)
 
 /-! ## 5. the solution pool: which action set a served solution has -/
 
